@@ -191,7 +191,18 @@ def judgeTamper (inp : Json) : List String :=
   let wrong := named.filter fun (_, c) => c != cheater
   let whyBlame := wrong.map fun (who, c) => s!"honest party {who} names {c}, who did not deviate (the deviating party is {cheater})"
   let whyClean := if !tampered && !(objPairs (jget inp "blame")).isEmpty then ["an all-honest session ended with an error at an honest party"] else []
-  whyResult ++ whyBlame ++ whyClean
+  -- CMP presigning: the deviating signer is singled out by EVERY honest signer
+  let whyIdent :=
+    if jbool inp "expect_identified" then
+      (jarr inp "honest").filterMap fun h =>
+        let hid := h.getStr?.toOption.getD ""
+        match (objPairs (jget inp "blame")).find? (·.1 == hid) with
+        | none => some s!"honest signer {hid} ended without an error although {cheater} deviated"
+        | some (_, b) =>
+          let cs := (jarr b "culprits").map fun c => c.getStr?.toOption.getD ""
+          if cs == [cheater] then none else some s!"honest signer {hid} names {cs} instead of exactly the deviating signer {cheater}: {jstr b "err"}"
+    else []
+  whyResult ++ whyBlame ++ whyClean ++ whyIdent
 
 def verdict (why : List String) : Json :=
   if why.isEmpty then jobj [("ok", true)] else jobj [("ok", false), ("why", Json.arr (why.map Json.str).toArray)]
